@@ -427,7 +427,8 @@ and the whole safe operation language `Op` with its four registers (`maps 0/1`, 
 every `MapOp` on a map register, every `SetOp` on a set register, every `Map<K, (), N>` operation on a
 set register (`umap`), the operations that involve a second or a scratch register (`clone_to`,
 `from_iter`, `eq`, `serde`, the lazy set algebra `alg`, `is_subset` / `is_superset` / `is_disjoint`,
-`&a - &b`, `extend`), fault injection (`inject`) and the final drop of all registers (`endCase`).
+`&a - &b`, `extend`, `a.extend(b)` with the set `b` moved in — `extend_from`, which consumes a second
+register), fault injection (`inject`) and the final drop of all registers (`endCase`).
 
 ACCOUNTING CONVENTIONS (all definitions are in `Proofs/OwnAlg.lean`, `Proofs/OwnSys.lean`).
 * `sysLive w sys`: the weight of ALL ghost-live slots of the four registers (`Own.live`: stored
@@ -436,7 +437,8 @@ ACCOUNTING CONVENTIONS (all definitions are in `Proofs/OwnAlg.lean`, `Proofs/Own
 * `Op.inObjs op` ("passed in"): every key and value object the operation text carries — arguments of
   the inserts, the lists of `from_iter` / `extend`, the key of an entry chain and the value of its
   terminal.  For `umap` only the keys; the three `umap` operations that `stepCore` does not execute
-  (`clone_to`, `from_iter`, `serde`) carry nothing.
+  (`clone_to`, `from_iter`, `serde`) carry nothing.  `extend_from` carries nothing either: the objects
+  it moves are those of the source register, which is one of the four registers of `sysLive`.
 * "created": `Own.createdOf out.events`, the results of the `clone` callbacks of the step, PLUS the
   decode results `dec` of a `serde` step: `decodeK` / `decodeV` (the element types' `deserialize`)
   return a fresh object and log NO event, so they are not in `createdOf` (which is kept as it is);
@@ -653,6 +655,11 @@ example (xs : List (K × V)) : (Op.map 1 (.from_iter true xs) : Op K V Q).safeAp
 example : (Op.set 0 (.alg .symmetric_difference 1 [.next, .clone, .fold]) : Op K V Q).safeApi = true := rfl
 example : (Op.set 0 (.sub 1 0) : Op K V Q).safeApi = true := rfl
 example : (Op.set 1 (.serde 0) : Op K V Q).safeApi = true := rfl
+example : (Op.set 0 (.extend_from 1) : Op K V Q).safeApi = true := rfl
+example : (Op.set 0 (.extend_from 1) : Op K V Q).regsOk = true := rfl
+example : (Op.set 0 (.extend_from 2) : Op K V Q).regsOk = false := rfl
+example : (Op.set 0 (.extend_from 1) : Op K V Q).inObjs = [] := rfl
+example (w : Obj K V → Nat) : (Op.set 0 (.extend_from 1) : Op K V Q).WOk w := trivial
 example (k : K) : (Op.umap 0 (.entry k [] .occ_remove_entry) : Op K V Q).safeApi = true := rfl
 example : (Op.map 0 (.clone_to 1) : Op K V Q).regsOk = true := rfl
 example : (Op.set 0 (.sub 1 0) : Op K V Q).regsOk = true := rfl
@@ -705,6 +712,27 @@ def sysNumbers0 : List Nat :=
     behind, unreachable until `endCase` forgets it): 5 + 4 + 2 = 0 + 1 + 8 + 2. -/
 example : sysNumbers0 = [0, 5, 4, 6, 1, 8, 2] := by decide +kernel
 
+/-- `a.extend(b)` with the set `b` moved in (`extend_from`), capacity 2 each: `a = {5, 6}`,
+    `b = {6, 7}`; the consuming iterator yields `7` first, which finds `a` full: the step unwinds with
+    the container's own overflow panic, `insert` drops `7`, the rest of `b` (`6`) is dropped with the
+    iterator.  The step passes nothing in (`Op.inObjs = []`: the objects are those of register `b`). -/
+def sysOps1 : List (Op Nat Nat Nat) :=
+  [.set 0 (.from_iter false [5, 6]), .set 1 (.from_iter false [6, 7]), .set 0 (.extend_from 1), .endCase]
+
+example : ∀ op ∈ sysOps1, op.safeApi = true ∧ op.regsOk = true := by decide
+
+def sysNumbers1 : List Nat :=
+  let r := run sysEnv0 sysR0 (Sys.init (fun _ => 1) (fun _ => 2) {}) sysOps1
+  [sysLive (fun _ => 1) r.1, (runIn sysOps1).length, (runCreated r.2).length,
+    (runOwned sysOps1 r.2).length, (runDropped r.2).length, r.1.w.leaked.length] ++
+  r.2.map fun o => (droppedOf o.events).length
+
+/-- 4 keys passed in, none created; at the end no live slot, nothing handed back, 4 dropped — 2 of them
+    by the overflowing `extend_from` step (the surplus key and the rest of the source), 2 by `endCase` —,
+    nothing leaked: 4 + 0 = 0 + 0 + 4 + 0. -/
+example : sysNumbers1 = [0, 4, 0, 0, 4, 0, 0, 0, 2, 2] := by decide +kernel
+example : ((run sysEnv0 sysR0 (Sys.init (fun _ => 1) (fun _ => 2) {}) sysOps1).2.map (·.outcome)) =
+    [.ok, .ok, .panic .overflow, .ok] := by decide +kernel
 
 end SysLedger
 
